@@ -31,10 +31,16 @@ def schedule_full(rng, norders, ncombined):
         for sub in itertools.combinations(FLAGS, r):
             if sub:
                 hists.append([list(sub)])
+    hists += [[list(r) for r in h] for h in UNIT_START]
     for _ in range(norders):
         order = FLAGS[:]
         rng.shuffle(order)
         hists.append([[f] for f in order])
+    for k in range(norders // 4):
+        # single-flag orders that start with ProgramUnit (start=unit histories)
+        order = FLAGS[1:]
+        rng.shuffle(order)
+        hists.append([['ProgramUnit']] + [[f] for f in order])
     for _ in range(ncombined):
         order = FLAGS[:]
         rng.shuffle(order)
@@ -46,8 +52,22 @@ def schedule_full(rng, norders, ncombined):
     return hists
 
 
+# histories that start with ProgramUnit and request Call before / after / together with Import (and the other
+# classes that write into the routines' symbol tables), so that state carried over between passes is exercised
+UNIT_START = [
+    [['ProgramUnit', 'Call'], FLAGS[:]],
+    [['ProgramUnit', 'Call'], ['Import']],
+    [['ProgramUnit'], ['Call'], ['Import']],
+    [['ProgramUnit'], ['Import'], ['Call']],
+    [['ProgramUnit', 'Import'], ['Call']],
+    [['ProgramUnit', 'Declaration', 'Call'], ['Import', 'Interface', 'TypeDef']],
+    [['ProgramUnit', 'Interface', 'TypeDef'], ['Call'], ['Declaration'], ['Import']],
+]
+
+
 def schedule_reduced(rng, norders=3):
     hists = [[FLAGS[:]]] + [[[f]] for f in FLAGS] + [[['ProgramUnit', f]] for f in FLAGS[1:]]
+    hists += [[list(r) for r in h] for h in UNIT_START]
     for _ in range(norders):
         order = FLAGS[:]
         rng.shuffle(order)
@@ -112,12 +132,12 @@ def drive(job):
 
 def seeded_file(rng):
     names = iter(['u%d' % i for i in range(1, 40)])
-    mods = ['moda', 'modb']
-    syms = {'moda': ['sa', 'sc', 'rb', 'q1', 'q2'], 'modb': ['sx', 'q3']}
+    mods = ['moda', 'modb', 'modp']
+    syms = {'moda': ['sa', 'sc', 'rb', 'q1', 'q2'], 'modb': ['sx', 'q3'], 'modp': ['rp1', 'rp2']}   # modp: procedures
 
     def imports():
         out = []
-        for m in rng.sample(mods, rng.randint(0, 2)):
+        for m in rng.sample(mods, rng.randint(0, 3)):
             style = rng.choice(['all', 'only', 'rename'])
             if style == 'all':
                 out.append({'module': m, 'only': False, 'syms': []})
@@ -129,10 +149,18 @@ def seeded_file(rng):
                 out.append({'module': m, 'only': style == 'only', 'syms': pairs})
         return out
 
-    def calls(member_binds=()):
+    def calls(member_binds=(), imps=()):
         out = []
+        # local names of imported procedures (module modp) are called in the importing scope
+        procs = []
+        for im in imps:
+            if im['module'] == 'modp':
+                procs += [loc for loc, _ in im['syms']] if im['only'] else \
+                    [loc for loc, _ in im['syms']] + [p for p in syms['modp'] if p not in [r for _, r in im['syms']]]
         for _ in range(rng.randint(0, 4)):
-            if member_binds and rng.random() < 0.3:
+            if procs and rng.random() < 0.5:
+                out.append({'name': rng.choice(procs), 'inl': rng.random() < 0.3})
+            elif member_binds and rng.random() < 0.3:
                 out.append({'name': 'obj%' + rng.choice(list(member_binds)), 'inl': rng.random() < 0.3})
             else:
                 out.append({'name': rng.choice(['ca', 'cb', 'cc', 'callee', 'used_sub']), 'inl': rng.random() < 0.3})
@@ -146,14 +174,16 @@ def seeded_file(rng):
         return out
 
     def leaf():
-        return {'kind': rng.choice(['subroutine', 'function']), 'name': next(names), 'imports': imports(), 'typedefs': [],
-                'interfaces': [], 'calls': calls(), 'children': []}
+        imps = imports()
+        return {'kind': rng.choice(['subroutine', 'function']), 'name': next(names), 'imports': imps, 'typedefs': [],
+                'interfaces': [], 'calls': calls(imps=imps), 'children': []}
 
     def routine(member_binds=(), name=None):
         n = name or next(names)
-        return {'kind': rng.choice(['subroutine', 'function']), 'name': n, 'imports': imports(),
+        imps = imports()
+        return {'kind': rng.choice(['subroutine', 'function']), 'name': n, 'imports': imps,
                 'typedefs': [{'name': 't' + n, 'binds': [], 'generics': []}] if rng.random() < 0.25 else [],
-                'interfaces': body_ifaces(n), 'calls': calls(member_binds),
+                'interfaces': body_ifaces(n), 'calls': calls(member_binds, imps),
                 'children': [leaf() for _ in range(rng.choice([0, 0, 1, 2]))]}
 
     def module():
@@ -198,6 +228,12 @@ FIXED_FILES = [
     # a module procedure with an internal procedure, followed by a second module
     [_u('module', 'fm1', [_u('subroutine', 'fs1', [_u('subroutine', 'finner')], calls=['ca'])]),
      _u('module', 'fm2', [_u('subroutine', 'fs2', calls=['cb'])])],
+    # a routine that imports a procedure under a local name in its own spec and calls it (symbol-table state
+    # written by the call discovery must not leak into a later import discovery)
+    [{'kind': 'subroutine', 'name': 'fdrv', 'typedefs': [], 'interfaces': [], 'children': [],
+      'imports': [{'module': 'modp', 'only': True, 'syms': [['lp', 'rp']]},
+                  {'module': 'modp', 'only': False, 'syms': [['lq', 'rp1']]}],
+      'calls': [{'name': 'lp', 'inl': False}, {'name': 'lq', 'inl': True}, {'name': 'ca', 'inl': False}]}],
     # the same with a stand-alone routine in front and a function with an internal function
     [_u('function', 'ff0', [_u('function', 'ffinner')]),
      _u('module', 'fm3', [_u('function', 'ff1', [_u('subroutine', 'finner2')])]),
